@@ -2,6 +2,7 @@ package gov
 
 import (
 	"bytes"
+	"sort"
 
 	appparams "github.com/KiraCore/sekai/app/params"
 	"github.com/KiraCore/sekai/x/gov/keeper"
@@ -85,8 +86,15 @@ func InitGenesis(
 	k.SetLastIdentityRecordId(ctx, genesisState.LastIdentityRecordId)
 	k.SetLastIdRecordVerifyRequestId(ctx, genesisState.LastIdRecordVerifyRequestId)
 
-	for typeofProposal, duration := range genesisState.ProposalDurations {
-		err := k.SetProposalDuration(ctx, typeofProposal, duration)
+	// sorted key order: ranging the Go map directly made the stored subset depend on the
+	// map iteration order of each node whenever an entry is rejected below
+	proposalTypes := make([]string, 0, len(genesisState.ProposalDurations))
+	for typeofProposal := range genesisState.ProposalDurations {
+		proposalTypes = append(proposalTypes, typeofProposal)
+	}
+	sort.Strings(proposalTypes)
+	for _, typeofProposal := range proposalTypes {
+		err := k.SetProposalDuration(ctx, typeofProposal, genesisState.ProposalDurations[typeofProposal])
 		if err != nil {
 			return nil
 		}
